@@ -140,6 +140,25 @@ class Report:
             for o in obs:
                 o.replay = "reported"
 
+    def settle_undecided(self, search):
+        """Obligations the solvers left undecided (typically: no longer provable after a code change, but the quantified
+        hypotheses keep z3 from producing a model): look for a concrete failing input natively. Found -> the obligations
+        are reported as refuted with that input; not found -> they stay undecided (exit 2, never a VIOLATION)."""
+        byfn: dict[str, list[Ob]] = {}
+        for o in self.obs:
+            if o.status == "unknown":
+                byfn.setdefault(o.function, []).append(o)
+        for fn, obs in byfn.items():
+            try:
+                found = search(fn, obs)
+            except Exception as e:
+                found = None
+                self.extra.setdefault("search_errors", []).append(f"{fn}: {e!r}")
+            if found:
+                for o in obs:
+                    o.status = "refuted"
+                    o.model = {"solver": o.model, "note": "solver undecided; concrete failing input found by native search"}
+
     # -- finishing --------------------------------------------------------------------------
     def finish(self) -> int:
         kf = load_known_findings()
